@@ -3,7 +3,7 @@
    types; andb/orb inlined) and ExtrOcamlString (ascii => char, string => char list). nat, N, Z, positive
    stay the extracted inductive datatypes. *)
 From Coq Require Import Extraction ExtrOcamlBasic ExtrOcamlString.
-From GV Require Import Base.Util Spec.Smiles Spec.Chem Spec.Iso Model.PyLite Gen.Converter Gen.Tables Model.Library Model.Gate Spec.Graft Model.Merger Spec.Ebnf Gen.Grammar Spec.Reader Model.Edge.
+From GV Require Import Base.Util Spec.Smiles Spec.Chem Spec.Iso Model.PyLite Gen.Converter Gen.Tables Model.Library Model.Gate Spec.Graft Model.Merger Spec.Ebnf Gen.Grammar Spec.Reader Model.Edge Spec.Modify.
 Extraction Language OCaml.
 Extraction "../_build/extracted/gv.ml"
   Util.s2l Util.nat2str Util.str2nat
@@ -19,4 +19,5 @@ Extraction "../_build/extracted/gv.ml"
   Ebnf.accepts Ebnf.lex Grammar.token_table Grammar.rules Grammar.start_rule
   Reader.read Reader.render Reader.size
   Edge.add_edge Edge.code_ketose_test Edge.spec_ketose_test
+  Modify.modify_all Modify.fragment_kind
   Iso.same_molecule Iso.same_constitution Iso.mirror_image Iso.iso_profiles Iso.strip_h.
